@@ -112,8 +112,13 @@ func Decode(gauge common.MemoryGauge, b []byte, options ...Option) (cadence.Valu
 // NewDecoder initializes a Decoder that will decode JSON-encoded bytes from the
 // given io.Reader.
 func NewDecoder(gauge common.MemoryGauge, r io.Reader) *Decoder {
+	dec := json.NewDecoder(r)
+	// Keep JSON numbers as written instead of converting them to float64,
+	// which cannot represent all integers above 2^53 exactly
+	dec.UseNumber()
+
 	return &Decoder{
-		dec:         json.NewDecoder(r),
+		dec:         dec,
 		gauge:       gauge,
 		pathContext: make([]pathElement, 0, 8),
 	}
@@ -1809,12 +1814,24 @@ func toBool(valueJSON any) bool {
 }
 
 func toUInt(valueJSON any) uint {
-	v, ok := valueJSON.(float64)
+	v, ok := valueJSON.(json.Number)
 	if !ok {
 		panic(errors.NewDefaultUserError("expected JSON number, got %s", valueJSON))
 	}
 
-	return uint(v)
+	// Integers are parsed exactly
+	i, err := strconv.ParseUint(v.String(), 10, strconv.IntSize)
+	if err == nil {
+		return uint(i)
+	}
+
+	// Other number forms, e.g. with a fraction or an exponent, are converted like before
+	f, err := v.Float64()
+	if err != nil {
+		panic(errors.NewDefaultUserError("invalid JSON number: %s", v.String()))
+	}
+
+	return uint(f)
 }
 
 func toString(valueJSON any) string {
